@@ -221,5 +221,7 @@ func replay(path string) {
 		fmt.Println("holds")
 		return
 	}
-	fmt.Println("run replay: re-run the check with the recorded seed")
+	if mrun.ReplayRun(v.Case["case"]) {
+		os.Exit(1)
+	}
 }
